@@ -28,9 +28,10 @@ INFO = {
     "coq_files": ["model/TD.v", "theory/TDTransfer.v"],
     "trusted_base": [
         "model/TD.v c10_check is evaluated on Q (NumQ); theorems are on R; tied by paramcoq transfer (theory/TDTransfer.v c10_check_transfer, train_transfer, c10_main)",
-        "harness/impl/c10_impl.py recording listener: experience read from the learner's own locals at end_of_timestep; double-Q coin/pick observed by wrapping the module-level name tdlearning.argmax",
+        "harness/impl/c10_impl.py recording listener: (s, a, r, ns) read from the locals msdm hands to end_of_timestep (the names its own EpisodeRewardEventListener relies on), the entry Q(s,a) after the step from whatever state->action->value tables those locals contain (found by structure, not by name); no msdm helper is wrapped, no assumption on the random stream",
+        "choice-level data is inferred by harness/c10.py:annotate (SARSA next action = next step's action; double-Q (table, argmax pick) = the candidate reproducing the observed entries; softmax behaviour distribution = computed from the model's own row) and then CHECKED by the Coq fold (dq_picks_ok, chain_ok, table_close)",
         "generated parameters (gamma, step size, epsilon, rewards, initial Q) reach the model exactly and msdm as nearest doubles (dyadic except eps=1/20)",
-        "expected SARSA with softmax temperature != 0: recorded behaviour distribution (rounded to 2^-44) is an input of the fold; its softmax form is checked in Python floats against the model's row (1e-9)",
+        "expected SARSA with softmax temperature != 0: the eps-softmax of the model's own row (Python floats, rounded to 2^-44) is an input of the fold; checked again against the rows Coq computes (1e-9)",
     ],
     "assumptions": ["MDP arrays of the model are built from the generator's definition with state/action ids as indices; mdp.actions(s) is the sorted id list"],
 }
@@ -319,6 +320,102 @@ def model_kind(case):
 
 
 # ---------------------------------------------------------------------------------------------
+# choice-level data of the experienced history, inferred here (not read from msdm's private helpers or locals)
+# ---------------------------------------------------------------------------------------------
+def softmax_dist_exact(case, acts, rowvals):
+    """eps/n + (1-eps)*softmax(Q(ns,.)/temp) of an exact row, in floats, rounded to 2^-44 (expected SARSA, temp != 0)"""
+    ep, temp = float(F(case["eps"])), float(F(case["temp"]))
+    xs = [float(x) / temp for x in rowvals]
+    mx = max(xs)
+    ws = [math.exp(x - mx) for x in xs]
+    tot = sum(ws)
+    return [[a, round_dyadic(ep / len(acts) + (1 - ep) * w / tot)] for a, w in zip(acts, ws)]
+
+
+def annotate(case, res):
+    """Mirror fold on Fractions that fills in, per step, what the model's fold needs beyond (s, a, r, ns):
+      SARSA       na    = the action of the following step (any action at the final, absorbing, state), unless recorded
+      double Q    coin, pick = the (table, maximiser of that table at ns) whose update reproduces the two entries
+                  Q1(s,a), Q2(s,a) observed after the step (best match; no candidate within 1e-9 => failing clause)
+      exp. SARSA  dist  = eps-softmax of the model's own row at ns when temperature != 0
+    Independent of how many random numbers msdm draws and of which helper draws them.  Returns (clause, where) or (None, None)."""
+    m = case["mdp"]
+    kind = case["learner"]
+    g, al, ep = F(m["gamma"]), F(case["alpha"]), F(case["eps"])
+    q0 = q0_table(case)
+    soft = kind == "esarsa" and F(case["temp"]) != 0
+    t1, t2 = {}, {}
+
+    def row(t, s):
+        if s not in t:
+            t[s] = {a: (F(0) if m["absorbing"][s] else q0[s][a]) for a in m["actions"][s]}
+        return t[s]
+    ok = True
+    idx = 0
+    for ep_i, epi in enumerate(res["episodes"]):
+        steps = epi["steps"]
+        if kind == "sarsa" and 0 <= epi["start"] < m["n"]:
+            row(t1, epi["start"])
+        for j, st in enumerate(steps):
+            s, a, ns = st["s"], st["a"], st["ns"]
+            valid = ok and 0 <= s < m["n"] and 0 <= ns < m["n"] and a in m["actions"][s] and not isinstance(st["r"], str)
+            if kind == "sarsa" and st.get("na") is None:
+                st["na"] = steps[j + 1]["a"] if j + 1 < len(steps) else (m["actions"][ns][0] if 0 <= ns < m["n"] and m["actions"][ns] else 0)
+            if not valid:
+                ok = False          # the validity clauses will name the step; keep the terms well-formed
+                if kind == "dq":
+                    st.setdefault("coin", False), st.setdefault("pick", 0)
+                if soft:
+                    st["dist"] = []
+                continue
+            r = vlib.frac(st["r"])
+            if kind == "dq":
+                row(t1, s), row(t2, s), row(t1, ns), row(t2, ns)
+                got = [vlib.frac(x) for x in st.get("after", []) if not isinstance(x, str)]
+                best = None
+                for coin in (True, False):
+                    upd, oth = (t1, t2) if coin else (t2, t1)
+                    mx = max(upd[ns].values())
+                    for pick in [b_ for b_ in m["actions"][ns] if upd[ns][b_] == mx]:
+                        new = upd[s][a] + al * (r + g * oth[ns][pick] - upd[s][a])
+                        exp_after = [new, t2[s][a]] if coin else [t1[s][a], new]
+                        if len(got) == 2:
+                            err = max(abs(x - y) / (1 + abs(y)) for x, y in zip(got, exp_after))
+                        else:
+                            err = F(0)
+                        if best is None or err < best[0]:
+                            best = (err, coin, pick, new)
+                if len(got) != 2:
+                    return "double Q-learning step does not expose its two tables to the event listener", \
+                           {"episode": ep_i, "step_index": idx, "step": st}
+                if best is None or best[0] > F(1, 10**9):
+                    return "entry written at a step is not the update rule applied to the table", \
+                           {"episode": ep_i, "step_index": idx, "step": st, "written": [str(x) for x in got],
+                            "closest_candidate_relative_error": str(float(best[0])) if best else None}
+                _, coin, pick, new = best
+                st["coin"], st["pick"] = coin, pick
+                (t1 if coin else t2)[s][a] = new
+            else:
+                row(t1, s)
+                rn = row(t1, ns)
+                if kind == "ql":
+                    tgt = max(rn.values())
+                elif kind == "sarsa":
+                    tgt = rn.get(st["na"], F(0))
+                elif soft:
+                    acts = list(m["actions"][ns])
+                    st["dist"] = softmax_dist_exact(case, acts, [rn[b_] for b_ in acts])
+                    tgt = sum(rn[b_] * p for b_, p in st["dist"])
+                else:
+                    mx = max(rn.values())
+                    k = sum(1 for v in rn.values() if v == mx)
+                    tgt = sum(v * (ep / len(rn) + ((1 - ep) / k if v == mx else 0)) for v in rn.values())
+                t1[s][a] = t1[s][a] + al * (r + g * tgt - t1[s][a])
+            idx += 1
+    return None, None
+
+
+# ---------------------------------------------------------------------------------------------
 # independent exact oracle (violation search only): the update rules on Fractions
 # ---------------------------------------------------------------------------------------------
 def oracle(case, res):
@@ -391,8 +488,8 @@ def oracle(case, res):
                         tgt = sum(v * (ep / len(rn) + (1 - ep) * F(w / tot)) for v, w in zip(rn.values(), ws))
                 t1[s][a] = t1[s][a] + al * (r + g * tgt - t1[s][a])
                 exp_after = [t1[s][a]]
-            got = [vlib.frac(x) for x in st["after"]]
-            for gx, ex in zip(got, exp_after):
+            got = [vlib.frac(x) for x in st.get("after", []) if not isinstance(x, str)]
+            for gx, ex in zip(got if len(got) == len(exp_after) else [], exp_after):
                 if abs(gx - ex) > F(1, 10**8) * (1 + abs(ex)):
                     where.update({"written": [str(x) for x in got], "update_rule_gives": [str(x) for x in exp_after]})
                     return None, where, "entry written at a step is not the update rule applied to the table"
@@ -584,6 +681,10 @@ def run(ctx):
         nsteps = sum(len(e["steps"]) for e in res["episodes"])
         if nsteps > 20 * MAX_STEPS:
             stats["skipped_too_long_for_exact_arithmetic"] = stats.get("skipped_too_long_for_exact_arithmetic", 0) + 1
+            continue
+        clause, where = annotate(case, res)
+        if clause:
+            ctx.violation("C10:%s:%s" % (kind, clause), {"case": case, "failing_clause": clause, "where": where, "impl": res}, found=True)
             continue
         if nsteps > (MAX_STEPS_EDGE if case.get("family") == "edge" else MAX_STEPS_GEN if gen else MAX_STEPS):
             stats["long_runs_oracle_only"] += 1
